@@ -9,8 +9,7 @@ import collections
 from .. import stream, genrun
 from . import common
 
-FACTS = ["file_codegen_src_rule_rs", "file_runtime_src_trace_rs", "file_runtime_src_peg_parser_rs",
-         "file_codegen_src_char_rule_rs", "file_codegen_src_extern_rule_rs", "memo_closed", "leftrec_closed"]
+FACTS = common.CODEGEN_FILES
 
 
 def balance(trace):
@@ -39,7 +38,8 @@ def check(out, ctx):
                               "tracer callbacks not properly nested on %r: %s" % (c.inp, why), common.case_payload(c, st))
     # plain parse vs parse_with_trace (real IndentedTracer) on a sample
     step = max(1, len(cases) // (600 if ctx.tier == "quick" else 6000))
-    sample = cases[::step]
+    sample = cases[::step] + [c for c in cases if c.g.meta.get("family") == "corpus"] + \
+        [c for c in cases if len(c.inp.encode()) > 45 and any(ord(ch) > 127 for ch in c.inp)][:400]
     by_exe = collections.defaultdict(list)
     for k, c in enumerate(sample):
         by_exe[st["exes"][c.g.gid]].append(k)
